@@ -94,6 +94,8 @@ M = {
     "tell-unfix-float-conversion": ("optuna/study/_tell.py",
         "        except Exception:\n            # E.g., ValueError, TypeError, OverflowError or anything raised by `__float__`.",
         "        except (ValueError, TypeError):", ["C02"]),
+    "optimize-unfix-njobs-exception-swallow": ("optuna/study/_optimize.py",
+        "            for f in futures:\n                f.result()\n", "", ["C02"]),
     "ask-unfix-fail-on-sampler-error": ("optuna/study/study.py",
         "            self._storage.set_trial_state_values(trial_id, TrialState.FAIL)\n            raise", "            raise", ["C02"]),
     # ---- C04 -------------------------------------------------------------------------------
